@@ -585,6 +585,8 @@ class Interp:
             return Poly(self.attr_value(e[1]))
         if t == "none":
             return None
+        if t == "sub":
+            raise Undefined("subscript expressions are rendered only (C02 slice family), not interpreted")
         if t == "bin":
             a = self.expr(e[2], env)
             b = self.expr(e[3], env)
@@ -839,6 +841,8 @@ class Typer:
             return ("poly", {"float": F, "int": I, "bool": B}[self.atypes[e[1]]])
         if t == "none":
             return None
+        if t == "sub":
+            raise Undefined("subscript")
         if t == "bin":
             a, b = self.expr(e[2], env), self.expr(e[3], env)
             if isinstance(a, tuple) and isinstance(b, tuple):
@@ -1028,6 +1032,10 @@ def r_expr(e, top=True):
         return f"{e[1]}({', '.join(parts)})"
     if t == "rawexpr":
         return e[1]
+    if t == "sub":   # ["sub", expr, lo, hi]: a slice of the first axis (rendered only; not interpreted)
+        lo = "" if e[2] is None else str(e[2])
+        hi = "" if e[3] is None else str(e[3])
+        return f"{r_expr(e[1], False)}[{lo}:{hi}]"
     raise ValueError(f"cannot render {e!r}")
 
 
